@@ -130,6 +130,11 @@ func tyFromName(s string) *STy {
 }
 
 func tyFromGo(t types.Type) *STy {
+	// reflect.Value is modelled as an opaque 32-bit handle (its behaviour is given by assumed
+	// contracts of the reflect functions)
+	if n, ok := t.(*types.Named); ok && n.Obj().Pkg() != nil && n.Obj().Pkg().Path() == "reflect" && n.Obj().Name() == "Value" {
+		return &STy{K: TInt, W: 32, Signed: false, GoT: t}
+	}
 	switch u := t.Underlying().(type) {
 	case *types.Basic:
 		switch u.Kind() {
